@@ -30,7 +30,7 @@ def run_semantic(ctx, module, level, rule, flags_list, relation, origins, extra,
             extra += [m["program"] for m in r["mismatches"][:40] if m.get("program")]
             ctx.cov["samples"].append({"correspondence": name, "evaluations": r["evaluations"], "nontrivial": r["nontrivial"]})
     for g in generators:
-        extra += [g(ctx.rng) for _ in range((40 if ctx.quick() else 1500) // max(1, len(generators) // 2))]
+        extra += [g(ctx.rng) for _ in range((40 if ctx.quick() else 1500) // max(1, len(generators)))]
     semprop.replay_known(ctx)
     qn, tn = n_corpus
     qm, tm = n_mut
